@@ -13,7 +13,7 @@ LEVEL = "exploration"
 SHARDS = {"quick": 8, "thorough": 16}
 RULE = ("cases: (a) enc: msmart _Packet.encode(id, frame) decoded by the independent V2 decoder; (b) dec: packets built by "
         "the independent encoder (varying message id, timestamp, magic, reserved bytes) decoded by _Packet.decode; (c) send: "
-        "LAN.send on a V2 connection against the model device, optionally through the public Device object, with the device stamping a different id on its replies, with further exchanges on the same object, with the first transmissions lost (retransmissions must decode too) and after another LAN object with a different id sent the same frame; (d) long: 70 000 (quick) / 300 000 (thorough) packets encoded consecutively in one process, each decoded by the independent decoder. Sweep of all frame lengths 0..255 x boundary ids, plus "
+        "LAN.send on a V2 connection against the model device, optionally through the public Device object, with the device stamping a different id on its replies, with further exchanges on the same object, with the first transmissions lost (retransmissions must decode too) and after another LAN object with a different id sent the same frame; (e) frames that are themselves packets (nested packet, discovery probe, 5A5A + own length) through enc and send; (d) long: 70 000 (quick) / 300 000 (thorough) packets encoded consecutively in one process, each decoded by the independent decoder. Sweep of all frame lengths 0..255 x boundary ids, plus "
         "Hypothesis-generated frames/ids/clock values, with the process's monotonic clock up to years past import time. Non-trivial: len(frame)>=1 and (len%16 in {0,15} or id>=2^32 or "
         "frame contains 5A5A). Distinct by (kind, frame, id).")
 ASSUMPTIONS = ["AES block primitive, MD5 shared with the code under test (trusted base)",
@@ -194,6 +194,30 @@ def run(ctx) -> None:
                         "magic": ["2000", "2080", "7a80", "0000"][(L + j) % 4], "res": bytes([(L + k) & 0xFF for k in range(12)]).hex()}
                 ctx.check(case, lambda c: _run_one(ctx, c))
     ctx.sweep("frame length 0..255 x ids x {enc,dec}", n * 2, True)
+
+    # frames that themselves look like packets (a packet nested in a packet, the discovery probe, 5A5A + own length at 4..5)
+    k = 0
+    inner_frames = [b"", b"\xaa", bytes(range(20)), bytes(33), bytes(range(100, 180))]
+    packetlike = [rc.v2_encode(0x1234 + i, f) for i, f in enumerate(inner_frames)] + [rc.DISCOVERY_PROBE]
+    for L in (6, 8, 16, 40, 41, 72, 100, 255):
+        b = bytearray(bytes((7 * i + L) & 0xFF for i in range(L)))
+        b[0:2] = b"\x5a\x5a"
+        b[4:6] = L.to_bytes(2, "little")
+        packetlike.append(bytes(b))
+        b[2:4] = b"\x01\x11"
+        packetlike.append(bytes(b))
+    for fr in packetlike:
+        if len(fr) > 255:
+            continue
+        for dev_id in (1, 0x0000123456789ABC):
+            for kind in ("enc", "send"):
+                k += 1
+                if ctx.mine(k):
+                    case = {"kind": kind, "frame": fr.hex(), "id": dev_id, "ts": 5.0e6}
+                    if kind == "send":
+                        case["replies"] = [fr.hex()]
+                    ctx.check(case, lambda c: _run_one(ctx, c))
+    ctx.sweep("frames that look like packets x ids x {enc, send}", k, True)
 
     # one long run in a single process (anything counted per process or per class: 16- and 32-bit boundaries of a packet count)
     if ctx.shard == 0:
